@@ -54,6 +54,11 @@ type Unit struct {
 	covers    []*Oblig
 	callOrd   map[string]int
 	siteOrd   map[ssa.Instruction]int
+	feas      *feasSolver
+	curInstr  ssa.Instruction
+	pdoms     map[*ssa.Function]map[*ssa.BasicBlock]*ssa.BasicBlock
+	noMerge   bool
+	entryParams map[string]SV
 }
 
 const maxPaths = 6000
@@ -62,6 +67,7 @@ type Outcome struct {
 	st       *State
 	results  []Value
 	panicked bool
+	atJoin   bool // the path stopped at the join block of an enclosing `if`
 }
 
 func (u *Unit) unsupportedf(format string, args ...interface{}) {
@@ -285,7 +291,11 @@ func (u *Unit) loadView(s *State, hv heapView, cells map[*Cell]Value, p *Ptr) Va
 		root = Select(u.heapGet(hv, hn, hs), p.base)
 	case pElem:
 		hn, hs := elemHeapName(u.sortOf(p.rtyp))
-		root = Select(Select(u.heapGet(hv, hn, hs), p.base), p.idx)
+		if p.sl.S != "" {
+			root = u.selem(u.heapGet(hv, hn, hs), p.sl, p.rel)
+		} else {
+			root = Select(Select(u.heapGet(hv, hn, hs), p.base), p.idx)
+		}
 	case pDeref:
 		if st, ok := p.rtyp.Underlying().(*types.Struct); ok && !isOpaqueStruct(p.rtyp) {
 			if len(p.path) > 0 && p.path[0].field >= 0 {
@@ -503,11 +513,12 @@ func (u *Unit) execFunc(st *State, fn *ssa.Function, args []Value, binds []Value
 		}
 	}
 	st.frame = fr
+	fr.resultAllocs = resultAllocs(fn)
 	outs := u.execBlock(st, fn.Blocks[0], nil)
 	for i := range outs {
 		if outs[i].st.frame != nil {
 			if outs[i].st.frame.parent == nil {
-				outs[i].st.lastNamed = outs[i].st.frame.named
+				outs[i].st.lastFrame = outs[i].st.frame
 			}
 			outs[i].st.frame = outs[i].st.frame.parent
 		}
@@ -520,6 +531,21 @@ func (u *Unit) execBlock(st *State, b *ssa.BasicBlock, pred *ssa.BasicBlock) []O
 	if u.npaths > maxPaths {
 		u.unsupportedf("path budget exceeded in %s", u.fn)
 		return nil
+	}
+	if n := len(st.stopAt); n > 0 && st.stopAt[n-1].block == b && st.stopAt[n-1].depth == st.frame.depth {
+		// resolve the join block's phis for this predecessor before merging
+		for _, in := range b.Instrs {
+			phi, ok := in.(*ssa.Phi)
+			if !ok {
+				break
+			}
+			for k, p := range b.Preds {
+				if p == pred {
+					st.frame.regs[phi] = u.get(st, phi.Edges[k])
+				}
+			}
+		}
+		return []Outcome{{st: st, atJoin: true}}
 	}
 	st.trace = append(st.trace, fmt.Sprintf("%s:%d", b.Parent().Name(), b.Index))
 	// leaving loops
@@ -555,17 +581,58 @@ func (u *Unit) execInstrs(st *State, b *ssa.BasicBlock, from int, pred *ssa.Basi
 		case *ssa.If:
 			c := u.lower(st, u.get(st, x.Cond), types.Typ[types.Bool])
 			var outs []Outcome
-			if c.S != "false" {
-				s1 := st.clone()
+			doThen := c.S != "false" && !u.infeasible(st, c)
+			doElse := c.S != "true" && !u.infeasible(st, Not(c))
+			join := u.ipdom(b)
+			merging := join != nil && doThen && doElse && !u.noMerge
+			if merging {
+				st.stopAt = append(st.stopAt, stopPoint{join, st.frame.depth})
+			}
+			if doThen {
+				s1 := st
+				if doElse {
+					s1 = st.clone()
+				}
 				s1.assume(c)
 				outs = append(outs, u.execBlock(s1, b.Succs[0], b)...)
 			}
-			if c.S != "true" {
+			if doElse {
 				s2 := st
 				s2.assume(Not(c))
 				outs = append(outs, u.execBlock(s2, b.Succs[1], b)...)
 			}
-			return outs
+			if !merging {
+				return outs
+			}
+			// merge the states that arrived at the join block
+			var rest []Outcome
+			var arrived []*State
+			for _, o := range outs {
+				if o.atJoin && len(o.st.stopAt) > 0 && o.st.stopAt[len(o.st.stopAt)-1].block == join {
+					o.st.stopAt = o.st.stopAt[:len(o.st.stopAt)-1]
+					arrived = append(arrived, o.st)
+				} else {
+					rest = append(rest, o)
+				}
+			}
+			var merged []*State
+			for _, s := range arrived {
+				done := false
+				for i, m := range merged {
+					if x := u.mergeStates(m, s); x != nil {
+						merged[i] = x
+						done = true
+						break
+					}
+				}
+				if !done {
+					merged = append(merged, s)
+				}
+			}
+			for _, m := range merged {
+				rest = append(rest, u.execBlock(m, join, nil)...)
+			}
+			return rest
 		case *ssa.Jump:
 			return u.execBlock(st, b.Succs[0], b)
 		case *ssa.Return:
@@ -591,7 +658,9 @@ func (u *Unit) execInstrs(st *State, b *ssa.BasicBlock, from int, pred *ssa.Basi
 			return outs
 		case *ssa.Phi:
 			if pred == nil {
-				u.unsupportedf("phi without predecessor in %s", b.Parent())
+				if _, ok := st.frame.regs[x]; !ok {
+					u.unsupportedf("phi without predecessor in %s", b.Parent())
+				}
 				continue
 			}
 			for k, p := range b.Preds {
@@ -603,7 +672,7 @@ func (u *Unit) execInstrs(st *State, b *ssa.BasicBlock, from int, pred *ssa.Basi
 			results := u.doCall(st, x, &x.Call, "call")
 			if len(results) == 1 && !results[0].panicked {
 				st = results[0].st
-				st.frame.regs[x] = results[0].val
+				st.frame.regs[x] = u.bindValue(st, results[0].val, x.Name())
 				continue
 			}
 			var outs []Outcome
@@ -639,6 +708,11 @@ func (u *Unit) execInstrs(st *State, b *ssa.BasicBlock, from int, pred *ssa.Basi
 			return res
 		default:
 			u.execSimple(st, in)
+			if v, ok := in.(ssa.Value); ok {
+				if t, ok := st.frame.regs[v].(T); ok {
+					st.frame.regs[v] = u.bind(st, t, v.Name())
+				}
+			}
 		}
 	}
 	u.unsupportedf("block without terminator in %s", b.Parent())
@@ -730,6 +804,11 @@ func (u *Unit) execSimple(st *State, in ssa.Instruction) {
 		if x.Comment != "" {
 			fr.named[x.Comment] = c
 		}
+		if names, ok := fr.resultAllocs[x]; ok {
+			for _, n := range names {
+				fr.named[n] = c
+			}
+		}
 		fr.regs[x] = &Ptr{kind: pCell, cell: c, rtyp: et, typ: et}
 	case *ssa.Store:
 		pt := x.Addr.Type().Underlying().(*types.Pointer).Elem()
@@ -751,6 +830,11 @@ func (u *Unit) execSimple(st *State, in ssa.Instruction) {
 				}
 				if tv.Sort == SSlice && p.kind != pCell {
 					st.assume(app(SBool, "wfSlice", tv))
+					u.assumeAllocated(st, app(SInt, "sarr", tv))
+					u.assumeNotPrivate(st, p, app(SInt, "sarr", tv))
+				}
+				if isRefType(pt) && p.kind != pCell {
+					u.assumeNotPrivate(st, p, tv)
 				}
 				if g, ok := u.guardOf(p); ok && !u.constructing(st, p.base) {
 					u.eng.prov[tv.S] = guardTag{g.MuStruct + "." + g.Mu, p.base}
@@ -1120,7 +1204,7 @@ func (u *Unit) indexAddr(st *State, x *ssa.IndexAddr) Value {
 		sl := u.lower(st, base, x.X.Type())
 		u.checkDerivedUse(st, sl, x, false)
 		u.addOblig(st, "nopanic.index", "", nil, And(Le(IntLit(0), idx), Lt(idx, app(SInt, "slen", sl))), x, "implicit: slice index in range")
-		return &Ptr{kind: pElem, base: app(SInt, "sarr", sl), idx: Add(app(SInt, "soff", sl), idx), rtyp: xt.Elem(), typ: xt.Elem()}
+		return &Ptr{kind: pElem, base: app(SInt, "sarr", sl), idx: Add(app(SInt, "soff", sl), idx), sl: sl, rel: idx, rtyp: xt.Elem(), typ: xt.Elem()}
 	case *types.Pointer:
 		at := xt.Elem().Underlying().(*types.Array)
 		if p, ok := base.(*Ptr); ok {
@@ -1187,9 +1271,16 @@ func (u *Unit) lookup(st *State, x *ssa.Lookup) Value {
 	if tag, ok := u.eng.prov[m.S]; ok {
 		u.addOblig(st, "guard.mapread."+tag.lock, "", u.propsFor("C03"), u.heldGoal(st, tag.lock, tag.base, false), x, "map guarded by "+tag.lock+" read with the lock held")
 	}
-	val := Ite(present, Select(Select(u.heapGet(st.view(), vn, vsrt), m), k), u.zero(vt))
+	val := u.mapGet(ks, vs, vt, u.heapGet(st.view(), dn, ds), u.heapGet(st.view(), vn, vsrt), m, k)
 	if val.Sort == SSlice {
+		val = u.bind(st, val, "lookup")
 		st.assume(app(SBool, "wfSlice", val))
+		u.assumeAllocated(st, app(SInt, "sarr", val))
+		if !u.constructing(st, m) {
+			for _, p := range st.private {
+				st.assume(Neq(app(SInt, "sarr", val), p.ref))
+			}
+		}
 	}
 	if isRefType(vt) {
 		u.assumeAllocated(st, val)
@@ -1255,4 +1346,113 @@ func (u *Unit) rangeNext(st *State, x *ssa.Next) Value {
 		st.assume(app(SBool, "wfSlice", v))
 	}
 	return Tuple{okv, k, v}
+}
+
+const bindThreshold = 48
+
+// bind names a large term by a fresh constant (definitional equality in the
+// path condition) so that terms stay small.
+func (u *Unit) bind(st *State, t T, hint string) T {
+	if len(t.S) <= bindThreshold || strings.HasPrefix(t.S, "((as const") {
+		return t
+	}
+	c := u.fresh("v."+hint, t.Sort)
+	st.assume(Eq(c, t))
+	if tag, ok := u.eng.prov[t.S]; ok {
+		u.eng.prov[c.S] = tag
+	}
+	if tag, ok := u.eng.prov[sliceRoot(t.S)]; ok && t.Sort == SSlice {
+		u.eng.prov[c.S] = tag
+	}
+	return c
+}
+
+func (u *Unit) bindValue(st *State, v Value, hint string) Value {
+	switch x := v.(type) {
+	case T:
+		return u.bind(st, x, hint)
+	case Tuple:
+		out := make(Tuple, len(x))
+		for i := range x {
+			out[i] = u.bindValue(st, x[i], hint)
+		}
+		return out
+	}
+	return v
+}
+
+// assumeNotPrivate: a reference loaded from shared memory (a location that is
+// not inside an object private to this activation) is not one of the private
+// references — they are unreachable from shared memory by construction
+// (a private reference stops being private when it is stored or passed out).
+func (u *Unit) assumeNotPrivate(st *State, from *Ptr, r T) {
+	if from.kind == pCell || from.kind == pArrLit || from.kind == pGlobal {
+		return
+	}
+	if u.constructing(st, from.base) {
+		return
+	}
+	for _, p := range st.private {
+		st.assume(Neq(r, p.ref))
+	}
+}
+
+// resultAllocs finds the anonymous result variables of a function with
+// deferred calls (the recover block returns their values) and names them
+// result / result<i> / err for use in `at unlock:` clauses.
+func resultAllocs(fn *ssa.Function) map[*ssa.Alloc][]string {
+	out := map[*ssa.Alloc][]string{}
+	if fn.Recover == nil {
+		return out
+	}
+	for _, in := range fn.Recover.Instrs {
+		ret, ok := in.(*ssa.Return)
+		if !ok {
+			continue
+		}
+		for i, r := range ret.Results {
+			un, ok := r.(*ssa.UnOp)
+			if !ok {
+				continue
+			}
+			al, ok := un.X.(*ssa.Alloc)
+			if !ok {
+				continue
+			}
+			names := []string{fmt.Sprintf("result%d", i)}
+			if len(ret.Results) == 1 {
+				names = append(names, "result")
+			}
+			if types.Identical(al.Type().(*types.Pointer).Elem(), types.Universe.Lookup("error").Type()) {
+				names = append(names, "err")
+			}
+			out[al] = names
+		}
+	}
+	return out
+}
+
+// mapGet: Go map lookup (zero value when absent or nil map) as a macro.
+func (u *Unit) mapGet(ks, vs Sort, vt types.Type, md, mv, m, k T) T {
+	fn := "mapget!" + smtName(string(ks)) + "!" + smtName(string(vs))
+	if !u.decls.Has(fn) {
+		// an uninterpreted function with a defining axiom (not a macro), so
+		// that it can occur in quantifier patterns
+		u.decls.Add(fn, fmt.Sprintf("(declare-fun %s (%s %s Int %s) %s)\n(assert (forall ((md %s) (mv %s) (m Int) (k %s)) (! (= (%s md mv m k) (ite (and (not (= m 0)) (select (select md m) k)) (select (select mv m) k) %s)) :pattern ((%s md mv m k)))))",
+			fn, md.Sort, mv.Sort, ks, vs, md.Sort, mv.Sort, ks, fn, u.zero(vt).S, fn))
+	}
+	return app(vs, fn, md, mv, m, k)
+}
+
+// selem: slice element read  s[i]  as an axiomatised function of (element
+// heap, slice, index): keeps index arithmetic out of quantifier patterns.
+func (u *Unit) selem(E, sl, i T) T {
+	_, row := arrParts(E.Sort)
+	_, es := arrParts(row)
+	fn := "selem!" + smtName(string(es))
+	if !u.decls.Has(fn) {
+		u.decls.Add(fn, fmt.Sprintf("(declare-fun %s (%s Slice Int) %s)\n(assert (forall ((e %s) (s Slice) (i Int)) (! (= (%s e s i) (select (select e (sarr s)) (+ (soff s) i))) :pattern ((%s e s i)))))",
+			fn, E.Sort, es, E.Sort, fn, fn))
+	}
+	return app(es, fn, E, sl, i)
 }
